@@ -57,6 +57,10 @@ CLAIMED = {
    text="Generated call histories (length <= 8 quick / 12 thorough) over {subscribe_i, unsubscribe_i, next(v), error, complete} with up to 3 observers (attached directly, through map, through take(1|2)) on each of the four subject types, including misuse (subscribe after a terminal, double unsubscribe, calls after a terminal), with the HashMap iteration order perturbed. Oracle: a reference state machine that reads the statement literally; after the run every observer's record equals the model's and after every step the subject's registered-observer count equals the model's live set. Where the statement is silent only weak invariants are asserted.",
    technique='deterministic simulation (single task): generated operation histories incl. misuse + hash-order fault, checked step by step against an executable reference model',
    note="The reference model is ~150 lines in harness/src/c10.rs. Sampling of the history space; a clean batch is evidence, not proof."),
+ 'C13': dict(level='exploration', design='5.13',
+   text="Sequential family: generated call histories (<= 8 quick / 12 thorough) over {subscribe_i, unsubscribe_i, connect, disconnect, source emits, source terminal} with up to 3 subscribers (direct, map, take(1|2); sharing one Observable value or a fresh observable() each) on publish / ref_count / replay, over a hot instrumented source and over cold sources that emit synchronously inside connect / the first subscribe (incl. a subscriber leaving during the burst). Oracle: reference state machine for deliveries, source-subscription counter and is_subscribed liveness probe after every call (0 before connect, 1 while connected, never 2, 0 after disconnect / last leave, replay = full history once). Threaded family: the first subscribers arrive concurrently and later leave concurrently. Not asserted: reconnection of ref_count after zero, double connect.",
+   technique='deterministic simulation: generated operation histories against an executable reference model + seeded interleavings of concurrent first subscribers',
+   note="Reference model in harness/src/c13.rs. Sampling of the history space."),
  # -- more claimed
 }
 NA = {
